@@ -298,6 +298,9 @@ impl Sys {
         }
         format!("X:{denom}")
     }
+    pub fn balance(&self, a: &Addr, denom: &str) -> u128 {
+        self.app.wrap().query_balance(a.to_string(), denom).map(|c| c.amount.u128()).unwrap_or(0)
+    }
     pub fn lp_denom(&self, pool_id: &str) -> String {
         format!("factory/{}/{}.LP", self.pool, pool_id)
     }
